@@ -112,6 +112,7 @@ def string_suite(ctx, dm):
         _string_search(ctx, bad, name, dm)
     ctx.ob(name, not bad, "correspondence", f"{len(bad)} disagreements, first: {bad[0]}" if bad else "")
     ctx.sample({"suite": name, "cases": len(lines), "example": {"call": lines[0], "lean": outs[0], "real": real[0]}})
+    return [name] if bad else []
 
 
 def _string_search(ctx, bad, name, dm):
@@ -200,7 +201,7 @@ def order_suite(ctx, dm):
     name = f"{ctx.prop}_corr_einsum_orders"
     ctx.ob(name, not bad, "correspondence", f"{len(bad)} disagreements, first: {bad[0]}" if bad else "")
     ctx.sample({"suite": name, "cases": len(lines), "example": {"call": lines[0], "lean": outs[0], "real": real[0]}})
-    return bad
+    return [name] if bad else []
 
 
 # ---------------------------------------------------------------------------
@@ -248,7 +249,7 @@ def pipeline_cases(ctx, dm):
     return cases
 
 
-def pipeline_suite(ctx, dm):
+def pipeline_suite(ctx, dm, also_broken=()):
     from props import C01
 
     nb = qgates.np_backend()
@@ -276,13 +277,15 @@ def pipeline_suite(ctx, dm):
         spec = st.copy()
         for g in gs:
             U = qgates.gate_full_matrix(g, n)
-            if dm:
-                real = np.asarray(nb.apply_gate_density_matrix(g, real, n))
-                spec = U @ spec @ U.conj().T
-            else:
-                real = np.asarray(nb.apply_gate(g, real, n))
-                spec = U @ spec
-        real, spec = real.reshape(-1), spec.reshape(-1)
+            spec = (U @ spec @ U.conj().T) if dm else (U @ spec)
+            try:
+                if real is not None:
+                    real = np.asarray(nb.apply_gate_density_matrix(g, real, n) if dm else nb.apply_gate(g, real, n))
+            except Exception as e:  # noqa: BLE001 — the real method raises on a valid gate
+                ctx.stat(f"pipe_real_raises_{type(e).__name__}")
+                real = None
+        spec = spec.reshape(-1)
+        real = np.full(spec.shape, np.nan) if real is None else real.reshape(-1)
         if out.strip() == "RAISE":
             model = None
         else:
@@ -297,18 +300,20 @@ def pipeline_suite(ctx, dm):
                 py = "\n".join(["import numpy as np", "from qibo import gates", "from qibo.backends import NumpyBackend", "nb = NumpyBackend()",
                                 f"st = np.array({st.tolist()})"] + [f"st = nb.{meth}({_ctor(g)}, st, {n})" for g in gs]
                                + [f"expected = np.array({spec.tolist()})", "assert np.array_equal(np.asarray(st).reshape(-1), expected), st"])
-                ctx.fail(f"pipeline-{'dm' if dm else 'sv'}:{descr[0] if len(descr) == 1 else 'sequence'}",
+                branch = "sequence" if len(gs) > 1 else ("controlled" if gs[0].is_controlled_by else "plain")
+                ctx.fail(f"pipeline-{'dm' if dm else 'sv'}:{branch}",
                          f"NumpyBackend.{meth} on {descr} differs from the operator of the documented semantics (embed + controls-all-one)",
-                         py, expected=str(spec.tolist()), observed=str(real.tolist()), broken=[name])
+                         py, expected=str(spec.tolist()), observed=str(real.tolist()), broken=[name, *also_broken])
     ctx.ob(name, bad == 0, "correspondence", f"{bad} disagreements" if bad else "")
     ctx.sample({"suite": name, "cases": len(lines), "example": {"n": cases[0][0], "gates": [C01.describe(g) for g in cases[0][1]]}})
 
 
 def run_suites(ctx):
     dm = ctx.prop == "C02"
-    string_suite(ctx, dm)
-    order_suite(ctx, dm)
-    pipeline_suite(ctx, dm)
+    broken = string_suite(ctx, dm)
+    broken += order_suite(ctx, dm)
+    # a wrong string / axis order shows as a wrong state: the pipeline failure explains them
+    pipeline_suite(ctx, dm, also_broken=broken)
     ctx.notes.append(
         "pipeline tie (QV/Model/Einsum.lean, driver DriverC01b.lean): einsum strings / control_order / reverse_order compared verbatim with einsum_utils "
         "(every ordered target tuple of length <=3 x every control subset, exhaustive n<=%d, sampled to n=6, guard boundaries at 52 labels); transliterated %s vs the real method on Gaussian-integer data"
